@@ -1,5 +1,4 @@
-import ModbusVerif.Model.GoEval
-import ModbusVerif.Generated.Facts
+import ModbusVerif.Lemmas.GoEvalWrapLemmas
 /-
   C18 (source side) — where buffers come from, decided on the typed rendering of the current source
   (`Gen.gs_*`, regenerated on every run). The heap model and its theorems (Props/C18.lean) assume:
@@ -65,9 +64,65 @@ theorem C18S_assemblers_allocate :
     texts "p.payload" gs_tcpTransport_assembleMBAPFrame = [] ∧ texts "p.payload" gs_rtuTransport_assembleRTUFrame = [] := by
   decide +kernel
 
+
+/-! ## every element store and every `copy` of the rendered code
+
+  A caller's slice can only be modified through an element store `x[i] = …`, a `copy(x, …)`, or an
+  `append` into spare capacity. The first two are enumerated here over EVERY rendered function
+  (`gstmtTable`: all client methods, transports, adapters, codecs, the server); an element store or
+  a `copy` added anywhere changes these tables. Each store's base variable is then shown to name
+  memory of the function's own: a `make`, a private `append(make …)` copy, a byte literal, or the
+  fresh result of a callee. (`append` into the caller's spare capacity is the subject of
+  `C18S_writeBytes_private_copy` / `C18S_encodeBools_own_buffer` above and of the heap model.) -/
+
+/-- targets of element stores (assignments whose target text is an index expression; translator
+    temporaries `#…` left out) -/
+def idxTargets (s : GStmt) : List String :=
+  (stmtTargets s).filter (fun t => t.toList.contains '[' && t.toList.head? != some '#')
+
+/-- (d) the complete table of element stores -/
+theorem C18S_all_element_stores :
+    (gstmtTable.map (fun p => (p.1, (idxTargets p.2).eraseDups))).filter (fun p => !p.2.isEmpty) =
+      [("ModbusClient.readBytes", ["values[i]", "values[i+1]"]),
+       ("ModbusClient.writeBytes", ["values[i]", "values[i+1]"]),
+       ("ModbusServer.handleTCPClient", ["ms.tcpClients[i]"]),
+       ("ModbusServer.handleTransport", ["res.payload[0]"]),
+       ("encodeBools", ["out[i/8]"]),
+       ("uint32ToBytes", ["out[0]", "out[1]", "out[2]", "out[3]"]),
+       ("uint64ToBytes", ["out[0]", "out[1]", "out[2]", "out[3]", "out[4]", "out[5]", "out[6]", "out[7]"])] := by
+  decide +kernel
+
+/-- (d) where the stored-to memory comes from: `readBytes` swaps inside the slice `mc.readRegisters`
+    just returned (its own receive buffer, (b)), `writeBytes` inside its private copy (a), the codecs
+    inside their `make`, the server's byte count inside the one-byte literal it has just created
+    (rich rendering: a `bytes` call precedes every `res.payload[0]` store — see `C03B_static_ops`) -/
+theorem C18S_store_bases_are_own :
+    (bindCalls gs_ModbusClient_readBytes).map (fun c => (c.1, c.2.1)) =
+      [(["endianness", "_"], "mc.encoding"), (["values", "err"], "mc.readRegisters")] ∧
+    texts "values" gs_ModbusClient_readBytes = [some "values[0 : len(values)-1]"] ∧
+    texts "out" gs_uint32ToBytes = [some "make([]byte, 4)"] ∧
+    texts "out" gs_uint64ToBytes = [some "make([]byte, 8)"] ∧
+    texts "out" gs_encodeBools = [some "make([]byte, byteCount)"] := by
+  decide +kernel
+
+/-- (e) the only `copy` calls are the datagram adapter's: into the caller's READ buffer (that is what
+    `Read` is for) and within its own receive buffer -/
+theorem C18S_all_copies :
+    (gstmtTable.map (fun p => (p.1, (callTextsOfW p.2).filter (fun c => c.2.1 == "copy")))).filter
+        (fun p => !p.2.isEmpty) =
+      [("udpSockWrapper.Read",
+        [(["copied"], "copy", [some "buf", some "usw.rxbuf[0:usw.leftoverCount]"]),
+         ([], "copy", [some "usw.rxbuf", some "usw.rxbuf[copied:usw.leftoverCount]"]),
+         (["copied"], "copy", [some "buf", some "usw.rxbuf[0:rlen]"]),
+         ([], "copy", [some "usw.rxbuf", some "usw.rxbuf[copied:rlen]"])])] := by
+  decide +kernel
+
 #print axioms C18S_writeBytes_private_copy
 #print axioms C18S_fresh_receive_buffers
 #print axioms C18S_encodeBools_own_buffer
 #print axioms C18S_assemblers_allocate
+#print axioms C18S_all_element_stores
+#print axioms C18S_store_bases_are_own
+#print axioms C18S_all_copies
 
 end Modbus.Props.C18
